@@ -113,6 +113,9 @@ func New(maxConcurrent int, chQqueueSize int, v ...interface{}) *TaskPool {
 				if tp.fork(f) {
 					continue
 				}
+				// fork failed: give back the slot it reserved, as Go() does,
+				// otherwise every task run by the dispatcher shrinks the pool.
+				atomic.AddInt64(&tp.concurrent, -1)
 
 				if f != nil {
 					tp.caller(f)
